@@ -262,10 +262,60 @@ def gen_builtins():
 
 
 # --------------------------------------------------------------------------- Reserved
+# The character-level model lean/Blots/Model/Ident.lean was written, rule by rule, for
+# exactly these rule texts (whitespace-normalised).  A grammar edit to one of them (e.g.
+# dropping `~ !identifier_rest` from `bool`, or reordering `term`) must be followed by an
+# edit of the model and of this table; until then the tie is reported broken.
+PINNED_RULES = {
+    "identifier": '@{ !(reserved_word ~ !identifier_rest) ~ (ASCII_ALPHA | "_")+ ~ identifier_rest* }',
+    "input_reference": '@{ "#" ~ (ASCII_ALPHA | "_")+ ~ identifier_rest* }',
+    "identifier_rest": '_{ ASCII_ALPHA+ | ASCII_DIGIT+ | "_"+ }',
+    "bool": '@{ ("true" | "false") ~ !identifier_rest }',
+    "null": '@{ "null" ~ !identifier_rest }',
+    "term": "_{ conditional | do_block | lambda | assignment | list | record | bool | string | null"
+            " | input_reference | identifier | number | nested_expression }",
+}
+# rules of which only the beginning matters to the model (`termStart`/`termWord` argue that
+# they cannot match a bare word because a space / "=" / sign must follow)
+PINNED_PREFIXES = {
+    "conditional": '${ "if" ~ WHITESPACE+ ~',
+    "do_block": '${ "do" ~ (WHITESPACE | plain_newline)+ ~',
+    "output_declaration": '${ "output" ~ WHITESPACE+ ~',
+    "assignment": '!{ identifier ~ "=" ~',
+    "prefix_usage": "_{ natural_prefix_op ~ WHITESPACE+ | prefix_op }",
+    "number": "@{ binary_number | hex_number | decimal_number }",
+}
+
+
+def rule_text(g, name):
+    ms = re.findall(r"^%s[ \t]*=[ \t]*(.*?)[ \t]*$" % re.escape(name), g, re.M)
+    if len(ms) != 1:
+        raise Fail("grammar.pest: rule %s found %d times" % (name, len(ms)))
+    return " ".join(ms[0].split())
+
+
+def check_pinned_rules(g):
+    for name, want in PINNED_RULES.items():
+        got = rule_text(g, name)
+        if got != " ".join(want.split()):
+            raise Fail("grammar.pest: rule `%s` is now `%s`; lean/Blots/Model/Ident.lean models `%s`" % (name, got, want))
+    for name, want in PINNED_PREFIXES.items():
+        got = rule_text(g, name)
+        if not got.startswith(" ".join(want.split())):
+            raise Fail("grammar.pest: rule `%s` no longer starts with `%s` (now `%s`); see lean/Blots/Model/Ident.lean `termStart`" % (name, want, got[:80]))
+
+
 def gen_reserved():
     g = read("blots-core/src/grammar.pest")
     m = need(re.search(r"^reserved_word\s*=\s*_\{(.*?)\}", g, re.M), "grammar.pest: reserved_word")
-    gram = re.findall(r'"(\w+)"', m.group(1))
+    # the alternatives IN GRAMMAR ORDER (PEG ordered choice: Model/Ident.lean `reservedWord`
+    # tries them in this order); every alternative must be a plain string literal
+    alts = [a.strip() for a in m.group(1).split("|")]
+    for a in alts:
+        if not re.fullmatch(r'"\w+"', a):
+            raise Fail("grammar.pest: reserved_word alternative %r is not a plain string literal" % a)
+    gram = [a[1:-1] for a in alts]
+    check_pinned_rules(g)
     ats = read("blots-core/src/ast_to_source.rs")
     m = need(re.search(r"const RESERVED_WORDS: &\[&str\] = &\[(.*?)\];", ats, re.S), "ast_to_source.rs: RESERVED_WORDS")
     printer = re.findall(r'"(\w+)"', m.group(1))
